@@ -70,11 +70,12 @@ def tasks(tier, seed):
         out.append({"fn": "load_model", "kwargs": {"det": det, "how": "direct"}, "label": f"load_model/{det}/direct"})
         out.append({"fn": "load_model", "kwargs": {"det": det, "how": "pipeline"}, "label": f"load_model/{det}/pipeline"})
         out.append({"fn": "load_model", "kwargs": {"det": det, "how": "twice"}, "label": f"load_model/{det}/twice"})
+        out.append({"fn": "result_after_load", "kwargs": {"det": det}, "label": f"load_model/{det}/result"})
     return out
 
 
 def REQUIRED_REACH(tier):
-    return ["C18/dict/roundtrip/*", "C18/asdf_standin/roundtrip/*", "C18/load_model/replaces_state/*"]
+    return ["C18/dict/roundtrip/*", "C18/asdf_standin/roundtrip/*", "C18/load_model/replaces_state/*", "C18/load_model/result_holds_loaded_state/*"]
 
 
 # -- the ASDF stand-in -------------------------------------------------------------------------------
@@ -413,11 +414,111 @@ def load_model(det, how):
             pass
 
 
+def _result_case(det, mode, position, nsteps):
+    """Real pyxel.run_mode (Exposure / Observation) of a pipeline holding the load-detector model, on a real ASDF file whose detector
+    carries processed data: what the returned result holds - buckets of the last step and the /data group - is the file's state."""
+    import warnings
+
+    import xarray as xr
+
+    import pyxel
+    from pyxel.exposure import Exposure, Readout
+    from pyxel.models import save_detector
+    from pyxel.observation import Observation, ParameterValues
+    from pyxel.pipelines import DetectionPipeline, ModelFunction
+
+    warnings.filterwarnings("ignore")
+    flags = {k: True for k in FLAGS}
+    vals = _defaults({})
+    stored, _ = _build(det, "file_", flags, symbolic=False, values=vals)
+    for b in ("photon", "pixel", "signal"):
+        getattr(stored, "_" + b)._array = getattr(stored, "_" + b)._array + 7.0
+    # processed data whose dimensions do not collide with the time / y / x coordinates of the result tree
+    stored._data = xr.DataTree.from_dict({"/stats": xr.Dataset({"mean": ("t", [1.0, 2.0])}), "/fit": xr.Dataset(coords={"order": [0, 1]}),
+                                          "/fit/pixel": xr.Dataset({"coef": ("order", [3.0, 4.0])})})
+    tmp = tempfile.mkdtemp(prefix="vx_c18_")
+    path = os.path.join(tmp, "stored.asdf")
+    seen = []
+    bad = {}
+
+    def hook(d, tag, kwargs, rec):
+        if tag == "before":
+            d.pixel.array = np.full(SHAPE, 1.0)
+            d.data["/own"] = xr.Dataset({"n": ("k", [float(d.pipeline_count)])})
+        else:
+            seen.append({"pixel": np.asarray(d.pixel.array).copy(), "groups": sorted(str(g) for g in d.data.children)})
+            if d.image._array is None:
+                d.image.array = np.zeros(SHAPE, dtype="uint16")
+
+    try:
+        save_detector(stored, filename=path)
+        running, _ = _build(det, "run_", {**flags, "scene_data": False}, symbolic=False, values=vals)
+        load = ModelFunction(name="load", func="pyxel.models.load_detector", arguments={"filename": path})
+        before = ModelFunction(name="before", func="vxprobes.probe", arguments={"tag": "before"})
+        after = ModelFunction(name="after", func="vxprobes.probe_a", arguments={"tag": "after", "a": 0.0})
+        groups = {"charge_collection": [load, after]} if position == 0 else {"photon_collection": [before], "charge_collection": [load], "charge_measurement": [after]}
+        pipe = DetectionPipeline(**groups)
+        times = [1.0, 2.0, 4.0][:nsteps]
+        if mode == "exposure":
+            m = Exposure(readout=Readout(times=times))
+        else:
+            m = Observation(parameters=[ParameterValues(key="pipeline.charge_measurement.after.arguments.a" if position else "pipeline.charge_collection.after.arguments.a", values=[1.0, 2.0])],
+                            readout=Readout(times=times), with_dask=False)
+        vxprobes.reset(hook)
+        try:
+            res = pyxel.run_mode(mode=m, detector=running, pipeline=pipe)
+        finally:
+            vxprobes.reset(None)
+        want_groups = sorted(str(g) for g in stored.data.children)
+        if not seen or any(not np.array_equal(s["pixel"], stored.pixel.array) for s in seen):
+            bad["later_model_pixel"] = [s["pixel"].tolist() for s in seen[:2]]
+        if any(s["groups"] != want_groups for s in seen):
+            bad["later_model_data_groups"] = [seen[0]["groups"] if seen else None, want_groups]
+        node = res["/bucket"] if "bucket" in res.children else res
+        px = np.asarray(node["pixel"])
+        last = px.reshape((-1,) + SHAPE)[-1]
+        if not np.array_equal(last, stored.pixel.array):
+            bad["result_pixel"] = [last.tolist(), np.asarray(stored.pixel.array).tolist()]
+        if "data" not in res.children:
+            bad["result_data"] = "no /data group"
+        else:
+            got = sorted(str(g) for g in res["/data"].children)
+            if got != want_groups:
+                bad["result_data_groups"] = [got, want_groups]
+            else:
+                for g in want_groups:
+                    for name, da in stored.data[g].to_dataset().data_vars.items():
+                        have = res[f"/data/{g}"].to_dataset().data_vars.get(name)
+                        if have is None or not np.array_equal(np.asarray(have).ravel()[-da.size:], np.asarray(da).ravel()):
+                            bad[f"result_data/{g}/{name}"] = [None if have is None else np.asarray(have).tolist(), np.asarray(da).tolist()]
+    finally:
+        try:
+            if os.path.exists(path):
+                os.remove(path)
+            os.rmdir(tmp)
+        except OSError:
+            pass
+    return bad
+
+
+def result_after_load(det):
+    """Second half of the statement through the running modes: the pipeline position of the load model, the mode and the number of
+    readout steps are solver-chosen; files, xarray and ASDF are real (concrete values)."""
+    mo, po, ns = vx.integer("mode"), vx.integer("position"), vx.integer("nsteps")
+    vx.assume((mo >= 0) & (mo <= 1) & (po >= 0) & (po <= 1) & (ns >= 1) & (ns <= 2), "exposure / observation, load model first or after a writer, one or two steps")
+    mode, position, nsteps = ("exposure", "observation")[vx.concretize_int(mo)], vx.concretize_int(po), vx.concretize_int(ns)
+    bad = _result_case(det, mode, position, nsteps)
+    vx.prove(f"C18/load_model/result_holds_loaded_state/{det}/{mode},position={position},steps={nsteps}", not bad, detail=str(bad)[:300])
+
+
 def replay(oid, kwargs, model, data):
     from pyxel.detectors import Detector
     from pyxel.models import load_detector, save_detector
 
     det = kwargs["det"]
+    if data["fn"] == "result_after_load":
+        bad = _result_case(det, ("exposure", "observation")[int(model.get("mode", 0))], int(model.get("position", 0)), int(model.get("nsteps", 1)))
+        return bool(bad), bad
     tmp = tempfile.mkdtemp(prefix="vx_c18_")
     path = os.path.join(tmp, "det.asdf")
     try:
